@@ -29,7 +29,6 @@ ASSUMPTIONS = [
 TRUSTED = ['model coq/C01/Model.v is hand-written from thermosteam/{_stream,_multi_stream,indexer,_phase}.py and '
            'base/sparse.py (SparseVector.mix_from); tie = correspondence check',
            'SparseVector/SparseArray item access, arithmetic and sum are modelled by their dense meaning (property C09)',
-           'copy_flow of a stream onto itself is not modelled (never generated)',
            'aliases: flow proxies of single-phase streams and per-phase sub-streams multistream[p] are modelled as handles on shared '
            'cells (Model.astep); operations that would replace the indexer of a stream whose data is shared (phases setters) are '
            'outside the modelled fragment: such a history is cut before that operation; linked MultiStreams are not modelled']
@@ -133,6 +132,8 @@ def gen_op(rng, ns, streams, eb_ok):
             same = [i for i in cands if PKGS[streams[i]['pkg']] == PKGS[streams[d]['pkg']]]
             cands = same or cands
         s = rng.choice(cands)
+        if rng.random() < 0.06:
+            s = d                       # a stream copied onto itself
         m = rng.random()
         if m < 0.4:
             ids = None
@@ -262,8 +263,12 @@ def gen_alias_case(rng):
         handles.append(['view', j, rng.choice(streams[j]['phases'])])
     for _ in range(rng.choice([1, 2, 2, 3])):
         j = rng.randrange(ns)
-        if streams[j]['multi']:
+        if streams[j]['multi'] and rng.random() < 0.4 and not any(h[0] == 'view' and h[1] == j for h in handles):
+            handles.append(['link', j])
+        elif streams[j]['multi'] and not any(h[0] == 'link' and h[1] == j for h in handles):
             handles.append(['view', j, rng.choice(streams[j]['phases'])])
+        elif streams[j]['multi']:
+            handles.append(['link', j])
         else:
             handles.append(['proxy', j, rng.choice(['l', 'g', 's', 'L', streams[j]['phases'][0]])])
     nh = ns + len(handles)
@@ -277,7 +282,7 @@ def gen_alias_case(rng):
         streams_extra.pop('order', None)
     ops = []
     for _ in range(rng.choice([2, 3, 3, 4])):
-        kind = rng.choice(['mix_alias1', 'mix_alias1', 'mix_aliasn', 'mix_new_phase', 'mix_new_phase', 'mix_from_view', 'split', 'split_multi',
+        kind = rng.choice(['mix_alias1', 'mix_alias1', 'mix_aliasn', 'mix_new_phase', 'mix_new_phase', 'mix_from_view', 'mix_rebind', 'split', 'split_multi',
                            'sep', 'scale', 'copy_flow', 'mul'])
         r = rng.choice(nonviews)
         same = [k for k in range(nh) if k != r and cell[k] == cell[r]]
@@ -296,6 +301,15 @@ def gen_alias_case(rng):
             if r in newphase:
                 ins.insert(rng.randrange(len(ins) + 1), newphase[r])
             ops.append(['mix', r, ins, rng.random() < 0.3, 0])
+        elif kind == 'mix_rebind':
+            # operations that replace the receiver's indexer while other stream objects share its data
+            shared = [k for k in nonviews if [cell[x] for x in range(nh)].count(cell[k]) > 1] or nonviews
+            r = rng.choice(shared)
+            multis = [k for k in range(nh) if streams[cell[k]]['multi'] and k not in views]
+            if multis and rng.random() < 0.5:
+                ops.append(['mix', r, [rng.choice(multis)] + ([] if rng.random() < 0.6 else [rng.randrange(nh)]), True, rng.choice([0, 0, 1, 2])])
+            else:
+                ops.append(['mix', r, [rng.randrange(nh) for _ in range(rng.choice([2, 3]))], True, rng.choice([1, 2, 2, 3])])
         elif kind == 'mix_from_view':
             ins = ([rng.choice(views)] if views else []) + [rng.randrange(nh) for _ in range(rng.choice([0, 1, 2]))]
             ops.append(['mix', r, ins, rng.random() < 0.4, 0])
@@ -428,12 +442,17 @@ def apply_op(store, op):
 
 def build_store(case):
     """the base streams plus, for histories with aliases, other stream objects on the same flow data:
-    ['proxy', j, phase] = streams[j].flow_proxy() with its own phase; ['view', j, p] = streams[j][p]"""
+    ['proxy', j, phase] = streams[j].flow_proxy() with its own phase; ['view', j, p] = streams[j][p];
+    ['link', j] = a MultiStream linked with streams[j]"""
     store = [build(sd) for sd in case['streams']]
     for h in case.get('handles', []):
         if h[0] == 'proxy':
             x = store[h[1]].flow_proxy()
             x.phase = h[2]
+        elif h[0] == 'link':        # a second MultiStream linked with streams[j] (shares the SparseArray)
+            base = store[h[1]]
+            x = env()['tmo'].MultiStream(None, phases=tuple(base.phases), thermo=base.thermo)
+            x.link_with(base)
         else:
             x = store[h[1]][h[2]]
         store.append(x)
@@ -444,27 +463,38 @@ def handle_cells(case):
     return list(range(n)) + [h[1] for h in case.get('handles', [])]
 
 def in_fragment(case, store, op):
-    """mirror of Model.safe_op: in a history with aliases an operation may replace a stream's indexer only
-    when no other stream object shares its data (otherwise the outcome is outside the modelled fragment)"""
+    """mirror of Model.safe_op: sub-streams are not used as receivers; a history with aliases stops once a linked
+    MultiStream is out of step with its rows (phases tuple and rows list of different lengths)"""
     if not case.get('handles'):
         return True
     tmo = env()['tmo']
     n = len(case['streams'])
-    cells = handle_cells(case) + list(range(len(handle_cells(case)), len(store)))      # products of * own their data
+    for x in store:
+        if isinstance(x, tmo.MultiStream) and len(x.phases) != len(x.imol.data.rows):
+            return False
     def is_view(k): return n <= k < n + len(case['handles']) and case['handles'][k - n][0] == 'view'
-    def exclusive(k): return (k < n or k >= n + len(case['handles'])) and cells.count(cells[k]) == 1
-    def multi(k): return isinstance(store[k], tmo.MultiStream)
     name = op[0]
-    if name == 'mix':
-        _, r, ins, eb, hf = op
-        return (not is_view(r)) and (exclusive(r) or (hf == 0 and ((not eb) or multi(r) or all(not multi(i) for i in ins))))
     if name == 'split':
-        _, f, s1, s2, sp, eb = op
-        def inplace(k): return (not multi(k)) and ((not multi(f)) or ((not eb) and not multi(s1) and not multi(s2)))
-        return (not is_view(s1)) and (not is_view(s2)) and (exclusive(s1) or inplace(s1)) and (exclusive(s2) or inplace(s2))
+        return not is_view(op[2]) and not is_view(op[3])
+    if name == 'mix':
+        return not is_view(op[1]) and alias_mix_class(case, store, op) is None
     if name in ('sep', 'copy_flow', 'scale'):
         return not is_view(op[1])
     return True
+
+def alias_mix_class(case, store, op):
+    """two classes of mixes over shared flow data that are outside the modelled fragment (findings)"""
+    tmo = env()['tmo']
+    n = len(case['streams'])
+    cells = handle_cells(case) + list(range(len(handle_cells(case)), len(store)))
+    def is_view(k): return n <= k < n + len(case['handles']) and case['handles'][k - n][0] == 'view'
+    _, r, ins, eb, hf = op
+    sharing = [i for i in ins if i != r and i < len(cells) and r < len(cells) and cells[i] == cells[r]]
+    if eb and hf > 0 and sharing:
+        return 'mix:fallback-with-inlet-sharing-receiver-data'
+    if r < len(store) and isinstance(store[r], tmo.MultiStream) and any(not is_view(i) for i in sharing):
+        return 'mix:recv=M:inlet-is-linked-MultiStream'
+    return None
 
 def run_impl(case):
     clear_caches()
@@ -475,8 +505,6 @@ def run_impl(case):
         if not in_fragment(case, store, op):
             break                     # would leave other stream objects behind: outside the modelled fragment
         if op[0] == 'copy_flow':
-            if op[1] == op[2]:
-                break                 # copying a stream onto itself: not modelled, history ends here
             multi = isinstance(store[op[1]], env()['tmo'].MultiStream)
             op = list(op[:6]) + [(op[6] if len(op) > 6 else None) if multi else None, multi]
         out['ops'].append(op)
@@ -527,13 +555,17 @@ def cop(o):
         return f'(OMul {cnat(o[1])} {q(o[2])})'
     raise ValueError(n)
 
-def chandle(h):
-    return f'(HProxy {cnat(h[1])} {PHC[h[2]]})' if h[0] == 'proxy' else f'(HView {cnat(h[1])} {PHC[h[2]]})'
+def chandle(h, case=None):
+    if h[0] == 'proxy': return f'(HProxy {cnat(h[1])} {PHC[h[2]]})'
+    if h[0] == 'link': return f'(HLink {cnat(h[1])} {clist([PHC[p] for p in case["streams"][h[1]]["phases"]])})'
+    return f'(HView {cnat(h[1])} {PHC[h[2]]})'
 
 def castore(case, out):
     n = len(case['streams'])
     cells = clist([cstream(s) for s in out['init'][:n]])
-    hs = clist([f'(HCell {cnat(j)})' for j in range(n)] + [chandle(h) for h in case['handles']])
+    linked = {h[1] for h in case['handles'] if h[0] == 'link'}
+    hs = clist([chandle(['link', j], case) if j in linked else f'(HCell {cnat(j)})' for j in range(n)]
+               + [chandle(h, case) for h in case['handles']])
     return f'(mka {cells} {hs})'
 
 def coq_case(case, out):
@@ -615,11 +647,18 @@ def shares(a, b):
     """two stream objects on (partly) the same flow data: flow_proxy / link_with / multistream[phase]"""
     return a is b or bool(dicts_of(a) & dicts_of(b))
 
-def alias_consistency(case, store, name):
-    """every other stream object on the same flow data keeps showing that data"""
+def alias_consistency(case, store, name, detached=()):
+    """every other stream object on the same flow data keeps showing that data (unless one of the two had its
+    indexer replaced by a phases setter, which ends the sharing by construction)"""
     n = len(case['streams'])
     for k, h in enumerate(case.get('handles', [])):
         x, parent = store[n + k], store[h[1]]
+        if (n + k) in detached or h[1] in detached:
+            continue
+        if h[0] == 'link':
+            if kind_of(parent) == 'M' and kind_of(x) == 'M' and not same_tot(totals(x), totals(parent)):
+                return f'alias:link_with: after {name} the MultiStream linked with stream {h[1]} shows {totals(x)} but that stream holds {totals(parent)}'
+            continue
         if h[0] == 'proxy':
             if kind_of(parent) == 'S' and not same_tot(totals(x), totals(parent)):
                 return f'alias:flow_proxy: after {name} the proxy of stream {h[1]} shows {totals(x)} but the stream holds {totals(parent)}'
@@ -638,13 +677,24 @@ def oracle(case):
     tmo = env()['tmo']
     clear_caches()
     store = build_store(case)
+    detached = set()
     for op in case['ops']:
         name = op[0]
-        if name == 'copy_flow' and op[1] == op[2]:
-            return None
         if not in_fragment(case, store, op):
+            cls = alias_mix_class(case, store, op) if (name == 'mix' and case.get('handles')) else None
+            if cls:
+                tot0 = [totals(s) for s in store]
+                expect = {n: sum(tot0[i][n] for i in op[2]) for n in NAMES}
+                try:
+                    apply_op(store, op)
+                except Exception:
+                    return None
+                if covers(store[op[1]], expect) and not same_tot(totals(store[op[1]]), expect):
+                    return f'{cls}: per-chemical totals of the receiver {totals(store[op[1]])} != sum of the inlets {expect}'
             return None
-        moved_msg = copy_flow_moves(store, op) if name == 'copy_flow' else None
+        imols0 = [x._imol for x in store]
+        shared0 = [[shares(a, b) for b in store] for a in store]
+        moved_msg = copy_flow_moves(store, op) if name == 'copy_flow' and op[1] != op[2] else None
         tot0 = [totals(s) for s in store]
         ok_flows = all(nonneg(s) for s in store)
         kinds = [kind_of(s) for s in store]
@@ -676,7 +726,7 @@ def oracle(case):
                 if not same_tot(totals(store[r]), expect):
                     return f'{where}: per-chemical totals of the receiver {totals(store[r])} != sum of the inlets {expect}'
             for i in range(len(tot0)):
-                if i != r and not shares(store[i], store[r]) and not same_tot(totals(store[i]), tot0[i]):
+                if i != r and not shared0[i][r] and not same_tot(totals(store[i]), tot0[i]):
                     return f'{where}: inlet/bystander stream {i} was modified'
         elif name == 'split':
             _, f, s1, s2, sp, eb = op
@@ -692,7 +742,7 @@ def oracle(case):
                 if pre and raised != 'UndefinedPhase':
                     return f'{where}: raises {raised}'
                 return None
-            if s1 != s2 and not shares(store[s1], store[s2]) and not shares(store[f], store[s1]) and not shares(store[f], store[s2]):
+            if s1 != s2 and not shared0[s1][s2] and not shared0[f][s1] and not shared0[f][s2]:
                 if f != s1 and not same_tot(totals(store[s1]), e1):
                     return f'{where}: first outlet {totals(store[s1])} != split*feed {e1}'
                 if f != s2 and s1 != s2 and not same_tot(totals(store[s2]), e2):
@@ -710,13 +760,18 @@ def oracle(case):
                 exp = {n: tot0[r][n] - tot0[o][n] for n in NAMES}
                 if not same_tot(totals(store[r]), exp):
                     return f'separate_out:recv={kinds[r]}:other={kinds[o]}: totals {totals(store[r])} != receiver - other {exp}'
-                if not shares(store[r], store[o]) and not same_tot(totals(store[o]), tot0[o]):
+                if not shared0[r][o] and not same_tot(totals(store[o]), tot0[o]):
                     return 'separate_out: the separated stream was modified'
         elif name == 'copy_flow':
             d, s, ids, remove, exclude = op[1:6]
             if raised: return None
+            if d == s:
+                # copy with removal neither duplicates nor loses material - also onto the stream itself
+                if not same_tot(totals(store[d]), tot0[d]):
+                    return f'copy_flow:onto-itself:remove={int(remove)}: the stream held {tot0[d]}, now holds {totals(store[d])}'
+                continue
             if moved_msg: return moved_msg
-            if kinds[d] == 'M' or shares(store[d], store[s]): continue
+            if kinds[d] == 'M' or shared0[d][s]: continue
             names = NAMES if ids is None else ([ids] if isinstance(ids, str) else list(ids))
             moved = [n for n in NAMES if (n in names) != bool(exclude)] if ids is not None else ([] if exclude else NAMES)
             src_ids = set(store[s].chemicals.IDs)
@@ -743,7 +798,9 @@ def oracle(case):
                 return 'mul: the operand was modified'
         if raised:
             return None
-        msg = alias_consistency(case, store, name)
+        for k, x in enumerate(store[:len(imols0)]):
+            if x._imol is not imols0[k]: detached.add(k)
+        msg = alias_consistency(case, store, name, detached)
         if msg: return msg
     return None
 
@@ -864,6 +921,8 @@ _ALL_WITNESSES = [
     {'key': 'C01:copy_flow:recv=M:src=S:exclude-with-other-phase-selector:remove=1',
      'case': {'streams': [_m(1, ['g', 'l'], [[0, 0, 0], [0, 0, 0]]), _s(1, 'l', [4., 1., 2.])],
               'ops': [['copy_flow', 0, 1, ['A_'], True, True, 'g']]}},
+    {'key': 'C01:copy_flow:onto-itself:remove=1',
+     'case': {'streams': [_s(1, 'l', [4., 1., 2.])], 'ops': [['copy_flow', 0, 0, None, True, False, None]]}},
     {'key': 'C01:mix:recv=M:only-inlet-is-own-sub-stream:eb=1',
      'case': {'streams': [_m(1, ['g', 'l'], [[1., 0, 0], [0, 2., 4.]])], 'handles': [['view', 0, 'l']],
               'ops': [['mix', 0, [1], True, 0]]}},
